@@ -1,3 +1,5 @@
 import NdeVerif.Calc.Ex
 import NdeVerif.Calc.Real
 import NdeVerif.Calc.Lemmas
+import NdeVerif.Calc.Tactics
+import NdeVerif.Gen.C01
